@@ -187,4 +187,4 @@ def _collect(shard, seed, n):
 
 
 def collect(ctx):
-    return common.run_shards(_collect, 8 if ctx.quick else 16, ctx.seed, n=25 if ctx.quick else 400)
+    return common.run_shards(_collect, 8 if ctx.quick else 16, ctx.seed, n=40 if ctx.quick else 1000)
